@@ -111,12 +111,12 @@ def maxOf : Tree K V → K → V → K × V
   | node _ k v _ _ _ r, _, _ => maxOf r k v
 
 /-- `Min()` -/
-def min : Tree K V → Option (K × V)
+def minKV : Tree K V → Option (K × V)
   | nil => none
   | node l k v _ _ _ _ => some (minOf l k v)
 
 /-- `Max()` -/
-def max : Tree K V → Option (K × V)
+def maxKV : Tree K V → Option (K × V)
   | nil => none
   | node _ k v _ _ _ r => some (maxOf r k v)
 
@@ -726,8 +726,8 @@ def step (kind : Kind) (cmp : K → K → Int) (eqVal : V → V → Bool) (s : S
   | .isEmpty => pure (s, .bool s.1.isNil)
   | .height => pure (s, .nat (height kind s.1))
   | .get k => pure (s, .optV (get cmp s.1 k))
-  | .min => pure (s, .optKV (min s.1))
-  | .max => pure (s, .optKV (max s.1))
+  | .min => pure (s, .optKV (minKV s.1))
+  | .max => pure (s, .optKV (maxKV s.1))
   | .floor k => pure (s, .optKV (floor cmp s.1 k))
   | .ceiling k => pure (s, .optKV (ceiling cmp s.1 k))
   | .select i => do let r ← select s.1 i; pure (s, .optKV r)
